@@ -1,7 +1,7 @@
 (* C07 proofs, part 10: the theorem for everything except ?: and casts. *)
 From Coq Require Import List NArith Bool Arith Lia.
 From CV Require Import Ast.Defs Ast.Basics Ast.Ctx Ast.Stage1 Ast.Main1 Ast.Stage2 Ast.Main2 Ast.NoDecl Ast.Stage3
-                       Ast.Main3 Ast.Stage4.
+                       Ast.Main3 Ast.Stage4 Ast.Stage5.
 Import ListNotations.
 
 Fixpoint frag4 (e : expr) : bool :=
@@ -11,6 +11,36 @@ Fixpoint frag4 (e : expr) : bool :=
   | EPar _ a | EPre _ _ a | EPost _ _ a | ECall0 _ a | EMem _ _ a _ => frag4 a
   | ECond _ _ _ _ _ | ECast _ _ _ => false
   end.
+
+(* everything except casts *)
+Fixpoint frag5 (e : expr) : bool :=
+  match e with
+  | EId _ _ | ENum _ _ => true
+  | EBin _ _ a b | EAsg _ _ a b | EComma _ a b | ECall _ a b | EIdx _ a b => frag5 a && frag5 b
+  | EPar _ a | EPre _ _ a | EPost _ _ a | ECall0 _ a | EMem _ _ a _ => frag5 a
+  | ECond _ _ c a b => frag5 c && frag5 a && frag5 b
+  | ECast _ _ _ => false
+  end.
+
+(* the middle operand of ?: is not a comma expression and, if it is an assignment / conditional expression,
+   contains no '?' : then the rank-14 loop inside the recursion of '?' stops at the right ':' *)
+Definition midcond (a : expr) : bool :=
+  Nat.leb P_ASG (prec a) && (negb (Nat.eqb (prec a) P_ASG) || negb (hasq (render a))).
+
+Fixpoint mid_ok (e : expr) : bool :=
+  match e with
+  | EId _ _ | ENum _ _ => true
+  | EBin _ _ a b | EAsg _ _ a b | EComma _ a b | ECall _ a b | EIdx _ a b => mid_ok a && mid_ok b
+  | EPar _ a | EPre _ _ a | EPost _ _ a | ECall0 _ a | EMem _ _ a _ | ECast _ _ a => mid_ok a
+  | ECond _ _ c a b => midcond a && mid_ok c && mid_ok a && mid_ok b
+  end.
+
+Lemma frag4_frag5 : forall e, frag4 e = true -> frag5 e = true /\ mid_ok e = true.
+Proof.
+  induction e; intros H; try discriminate; cbn [frag4 frag5 mid_ok] in *; auto;
+    try (apply andb_true_iff in H; destruct H as [H1 H2];
+         destruct (IHe1 H1) as [-> ->]; destruct (IHe2 H2) as [-> ->]; split; reflexivity).
+Qed.
 
 (* ---------- how renderings end *)
 Lemma strict_end_snoc : forall xs (t : ptok), strict_ender (snd t) = true -> strict_end (xs ++ [t]).
@@ -126,16 +156,16 @@ Qed.
 
 Ltac split_and H := repeat (apply andb_true_iff in H; let H2 := fresh H in destruct H as [H H2]).
 
-Lemma main4 : forall cpp e, frag4 e = true -> wf e = true -> labels_ok e = true ->
+Lemma main5 : forall cpp e, frag5 e = true -> wf e = true -> labels_ok e = true -> mid_ok e = true ->
   Sx cpp (render e) (tree_of e) (rank e) /\ ender2 (render e) /\ starter1 (render e) /\ render e <> [].
 Proof.
-  induction e; intros Hf Hw Hl; try discriminate; cbn [frag4] in Hf; cbn [wf labels_ok] in Hw, Hl.
+  induction e; intros Hf Hw Hl Hm; try discriminate; cbn [frag5] in Hf; cbn [wf labels_ok] in Hw, Hl; cbn [mid_ok] in Hm.
   - repeat split; [apply Sx_id|apply strict_end_ender2; apply (strict_end_snoc []); reflexivity|discriminate].
   - repeat split; [apply Sx_num|apply strict_end_ender2; apply (strict_end_snoc []); reflexivity|discriminate].
   - (* EPre *)
     apply andb_true_iff in Hw. destruct Hw as [Hw1 Hw2].
     apply andb_true_iff in Hl. destruct Hl as [Hl1 Hl2].
-    destruct (IHe Hf Hw2 Hl2) as [Sa [Ea [Sta Na]]].
+    destruct (IHe Hf Hw2 Hl2 Hm) as [Sa [Ea [Sta Na]]].
     cbn [render tree_of].
     pose proof (Sx_wrap cpp (Nat.ltb (prec e) P_PRE) (rootlab e) _ _ _ Sa (rank_le e) (render_balanced e)) as Wa.
     pose proof (starter_wrap (Nat.ltb (prec e) P_PRE) (rootlab e) _ Sta) as Ws.
@@ -152,7 +182,7 @@ Proof.
     + discriminate.
   - (* EPost *)
     apply andb_true_iff in Hw. destruct Hw as [Hw1 Hw2]. apply negb_true_iff in Hw1.
-    destruct (IHe Hf Hw2 Hl) as [Sa [Ea [Sta Na]]].
+    destruct (IHe Hf Hw2 Hl Hm) as [Sa [Ea [Sta Na]]].
     cbn [render tree_of].
     repeat split.
     + change (rank (EPost l o e)) with 0.
@@ -161,8 +191,8 @@ Proof.
     + apply starter_app. apply starter_wrap. exact Sta.
     + apply app_nonnil. apply wrap_nonnil. exact Na.
   - (* EBin *)
-    split_and Hf. split_and Hw. split_and Hl.
-    destruct (IHe1 Hf Hw Hl) as [Sa [Ea [Sta Na]]]. destruct (IHe2 Hf0 Hw0 Hl0) as [Sb [Eb [Stb Nb]]].
+    split_and Hf. split_and Hw. split_and Hl. split_and Hm.
+    destruct (IHe1 Hf Hw Hl Hm) as [Sa [Ea [Sta Na]]]. destruct (IHe2 Hf0 Hw0 Hl0 Hm0) as [Sb [Eb [Stb Nb]]].
     cbn [render tree_of].
     pose proof (Sx_wrap cpp (Nat.ltb (prec e1) (bin_prec o)) (rootlab e1) _ _ _ Sa (rank_le e1) (render_balanced e1)).
     pose proof (Sx_wrap cpp (Nat.ltb (prec e2) (S (bin_prec o))) (rootlab e2) _ _ _ Sb (rank_le e2) (render_balanced e2)).
@@ -178,8 +208,8 @@ Proof.
     + apply starter_app. apply starter_wrap. exact Sta.
     + apply app_nonnil. apply wrap_nonnil. exact Na.
   - (* EAsg *)
-    split_and Hf. split_and Hw. split_and Hl.
-    destruct (IHe1 Hf Hw Hl) as [Sa [Ea [Sta Na]]]. destruct (IHe2 Hf0 Hw0 Hl0) as [Sb [Eb [Stb Nb]]].
+    split_and Hf. split_and Hw. split_and Hl. split_and Hm.
+    destruct (IHe1 Hf Hw Hl Hm) as [Sa [Ea [Sta Na]]]. destruct (IHe2 Hf0 Hw0 Hl0 Hm0) as [Sb [Eb [Stb Nb]]].
     cbn [render tree_of].
     pose proof (Sx_wrap cpp (Nat.ltb (prec e1) P_LOR) (rootlab e1) _ _ _ Sa (rank_le e1) (render_balanced e1)).
     pose proof (Sx_wrap cpp (Nat.ltb (prec e2) P_ASG) (rootlab e2) _ _ _ Sb (rank_le e2) (render_balanced e2)).
@@ -194,9 +224,32 @@ Proof.
     + apply ender2_mid; [apply wrap_nonnil; exact Nb|apply ender2_wrap; exact Eb].
     + apply starter_app. apply starter_wrap. exact Sta.
     + apply app_nonnil. apply wrap_nonnil. exact Na.
+  - (* ECond *)
+    split_and Hf. split_and Hw. split_and Hl. split_and Hm.
+    destruct (IHe1 Hf Hw Hl Hm2) as [Sc [Ec [Stc Nc]]]. destruct (IHe2 Hf1 Hw1 Hl1 Hm1) as [Sa [Ea [Sta Na]]].
+    destruct (IHe3 Hf0 Hw0 Hl0 Hm0) as [Sb [Eb [Stb Nb]]].
+    cbn [render tree_of]. rewrite wrap_comma.
+    pose proof (Sx_wrap cpp (Nat.ltb (prec e1) P_LOR) (rootlab e1) _ _ _ Sc (rank_le e1) (render_balanced e1)) as Wc.
+    pose proof (Sx_wrap cpp (Nat.ltb (prec e3) P_ASG) (rootlab e3) _ _ _ Sb (rank_le e3) (render_balanced e3)) as Wb.
+    unfold midcond in Hm. split_and Hm. apply Nat.leb_le in Hm.
+    repeat split.
+    + change (rank (ECond lq lc e1 e2 e3)) with 14.
+      eapply Sx_cond; [exact Wc|exact Sa|exact Wb| | | | | | |].
+      * pose proof (wrapped_rank e1 P_LOR). unfold P_LOR in *. lia.
+      * unfold rank. unfold P_ASG in Hm. lia.
+      * pose proof (wrapped_rank e3 P_ASG). unfold P_ASG in *. lia.
+      * intros E. apply orb_true_iff in Hm3. destruct Hm3 as [H|H].
+        -- apply negb_true_iff in H. apply Nat.eqb_neq in H. unfold rank, P_ASG in *. destruct (prec_range e2). lia.
+        -- apply negb_true_iff in H. exact H.
+      * exact Sta.
+      * apply wrap_nonnil; exact Nc.
+      * apply wrap_nonnil; exact Nb.
+    + apply ender2_mid; [intro H0; apply app_eq_nil in H0; destruct H0 as [_ H0]; discriminate|]. apply (ender2_mid (render e2)); [apply wrap_nonnil; exact Nb|apply ender2_wrap; exact Eb].
+    + apply starter_app. apply starter_wrap. exact Stc.
+    + apply app_nonnil. apply wrap_nonnil. exact Nc.
   - (* EComma *)
-    split_and Hf. split_and Hw. split_and Hl.
-    destruct (IHe1 Hf Hw Hl) as [Sa [Ea [Sta Na]]]. destruct (IHe2 Hf0 Hw0 Hl0) as [Sb [Eb [Stb Nb]]].
+    split_and Hf. split_and Hw. split_and Hl. split_and Hm.
+    destruct (IHe1 Hf Hw Hl Hm) as [Sa [Ea [Sta Na]]]. destruct (IHe2 Hf0 Hw0 Hl0 Hm0) as [Sb [Eb [Stb Nb]]].
     cbn [render tree_of].
     pose proof (Sx_wrap cpp (Nat.ltb (prec e1) P_COMMA) (rootlab e1) _ _ _ Sa (rank_le e1) (render_balanced e1)).
     pose proof (Sx_wrap cpp (Nat.ltb (prec e2) P_ASG) (rootlab e2) _ _ _ Sb (rank_le e2) (render_balanced e2)).
@@ -212,7 +265,7 @@ Proof.
     + apply app_nonnil. apply wrap_nonnil. exact Na.
   - (* ECall0 *)
     split_and Hw. apply negb_true_iff in Hw, Hw1.
-    destruct (IHe Hf Hw0 Hl) as [Sa [Ea [Sta Na]]].
+    destruct (IHe Hf Hw0 Hl Hm) as [Sa [Ea [Sta Na]]].
     cbn [render tree_of].
     repeat split.
     + change (rank (ECall0 l e)) with 0.
@@ -221,8 +274,8 @@ Proof.
     + apply starter_app. apply starter_wrap. exact Sta.
     + apply app_nonnil. apply wrap_nonnil. exact Na.
   - (* ECall *)
-    split_and Hf. split_and Hw. split_and Hl. apply negb_true_iff in Hw, Hw2.
-    destruct (IHe1 Hf Hw1 Hl) as [Sa [Ea [Sta Na]]]. destruct (IHe2 Hf0 Hw0 Hl0) as [Sb [Eb [Stb Nb]]].
+    split_and Hf. split_and Hw. split_and Hl. split_and Hm. apply negb_true_iff in Hw, Hw2.
+    destruct (IHe1 Hf Hw1 Hl Hm) as [Sa [Ea [Sta Na]]]. destruct (IHe2 Hf0 Hw0 Hl0 Hm0) as [Sb [Eb [Stb Nb]]].
     cbn [render tree_of]. rewrite wrap_comma.
     repeat split.
     + change (rank (ECall l e1 e2)) with 0.
@@ -236,8 +289,8 @@ Proof.
     + apply starter_app. apply starter_wrap. exact Sta.
     + apply app_nonnil. apply wrap_nonnil. exact Na.
   - (* EIdx *)
-    split_and Hf. split_and Hw. split_and Hl.
-    destruct (IHe1 Hf Hw Hl) as [Sa [Ea [Sta Na]]]. destruct (IHe2 Hf0 Hw0 Hl0) as [Sb [Eb [Stb Nb]]].
+    split_and Hf. split_and Hw. split_and Hl. split_and Hm.
+    destruct (IHe1 Hf Hw Hl Hm) as [Sa [Ea [Sta Na]]]. destruct (IHe2 Hf0 Hw0 Hl0 Hm0) as [Sb [Eb [Stb Nb]]].
     cbn [render tree_of]. rewrite wrap_comma.
     repeat split.
     + change (rank (EIdx l e1 e2)) with 0.
@@ -252,7 +305,7 @@ Proof.
     + apply starter_app. apply starter_wrap. exact Sta.
     + apply app_nonnil. apply wrap_nonnil. exact Na.
   - (* EMem *)
-    destruct (IHe Hf Hw Hl) as [Sa [Ea [Sta Na]]].
+    destruct (IHe Hf Hw Hl Hm) as [Sa [Ea [Sta Na]]].
     cbn [render tree_of].
     repeat split.
     + change (rank (EMem ld lm e m)) with 0.
@@ -261,7 +314,7 @@ Proof.
     + apply starter_app. apply starter_wrap. exact Sta.
     + apply app_nonnil. apply wrap_nonnil. exact Na.
   - (* EPar *)
-    destruct (IHe Hf Hw Hl) as [Sa [Ea [Sta Na]]]. cbn [render tree_of].
+    destruct (IHe Hf Hw Hl Hm) as [Sa [Ea [Sta Na]]]. cbn [render tree_of].
     repeat split.
     + change (rank (EPar l e)) with 0.
       apply (Sx_paren cpp (render e) (tree_of e) (rank e) l l Sa); [apply rank_le|apply render_balanced].
@@ -278,11 +331,23 @@ Proof.
   all: try (destruct o; reflexivity).
 Qed.
 
+(* every constructor except casts; the premises about ?: are [mid_ok] and "prepareTernaryOpForAST leaves the
+   rendering unchanged" (it inserts parentheses around a middle operand with a top-level , < or ?) *)
+Theorem parse_render_stage5 : forall cpp e,
+  frag5 e = true -> wf e = true -> labels_ok e = true -> mid_ok e = true ->
+  decl_like (render e) = false ->
+  prep (2 * length (render e ++ [semi])) (render e ++ [semi]) = render e ++ [semi] ->
+  parse cpp (render e) = Some (tree_of e).
+Proof.
+  intros cpp e Hf Hw Hl Hm Hd Hp. destruct (main5 cpp e Hf Hw Hl Hm) as [HS _].
+  apply (parse_of_Sx cpp _ _ (rank e) HS); [apply rank_le|exact Hp|exact Hd].
+Qed.
+
 Theorem parse_render_stage4 : forall cpp e,
   frag4 e = true -> wf e = true -> labels_ok e = true -> decl_like (render e) = false ->
   parse cpp (render e) = Some (tree_of e).
 Proof.
-  intros cpp e Hf Hw Hl Hd. destruct (main4 cpp e Hf Hw Hl) as [HS _].
-  apply (parse_of_Sx cpp _ _ (rank e) HS); [apply rank_le| |exact Hd].
+  intros cpp e Hf Hw Hl Hd. destruct (frag4_frag5 e Hf) as [H5 Hm].
+  apply parse_render_stage5; try assumption.
   apply prep_no_q. apply alltok_app; [apply frag4_no_q; exact Hf|apply alltok_one; reflexivity].
 Qed.
